@@ -376,6 +376,9 @@ package lib
 // quantifier is beyond the solver's instantiation)
 //@   checks safety
 //@   ensures @C08: result != nil ==> !(index in r.decoysTimeouts)
+// "never kept past their lifetime" - nor the bookkeeping for them: when the last registration of a phantom goes, the
+// phantom's (now empty) set goes too (one leaked map per phantom ever used otherwise)
+//@   ensures @C08: result != nil ==> !(old(r.decoysTimeouts[index].decoy) in r.decoys) || len(r.decoys[old(r.decoysTimeouts[index].decoy)]) > 0
 // "forgotten entirely": if the index names a tracked registration, that registration is gone afterwards
 //@   ensures @C08 @C02: old(index in r.decoysTimeouts) && old(r.decoysTimeouts[index].identifier in r.decoys[r.decoysTimeouts[index].decoy]) ==> !(index in r.decoysTimeouts) && !(old(r.decoysTimeouts[index].identifier) in r.decoys[old(r.decoysTimeouts[index].decoy)])
 //@   ensures @C09: !held(&r.m) && rheld(&r.m) == 0
